@@ -231,6 +231,7 @@ def xorshift_theorems(u, done):
     return [(f"XorShiftRng.{fn}", stmt, props, fn) for fn, stmt, props in pairs if fn in done]
 
 PROOFS = {
+    "stir_pool": "ext_tie_stir", "lfsr": "ext_tie_lfsr", "stuck": "ext_tie_step",
     # tactic scripts tried in order (first | …); `rfl` is by far the common case: the translation unfolds to the model
     "next_u32": "ext_tie_step", "next_u64": "ext_tie_step", "fill_bytes": "ext_tie_fill", "jump": "ext_tie_jump",
     "long_jump": "ext_tie_jump", "from_seed": "ext_tie_seed", "seed_from_u64": "ext_tie_seed",
@@ -264,12 +265,72 @@ def generate(repo, exclude=None):
         theorems += xorshift_theorems(u, done)
     except Exception as e:
         report["XorShiftRng"] = dict(error=repr(e))
+    # rand_jitter: the pure mixing core
+    try:
+        for u, order in build_units_jitter(repo):
+            text, done, skipped = emit_unit(u, order, exclude.get(u.name, {}))
+            parts.append(text)
+            report[u.name] = dict(file=u.file, translated=done, skipped=skipped, shape=u.shape, seed_len=u.seed_len)
+            theorems += jitter_theorems(u, done)
+    except Exception as e:
+        report["rand_jitter"] = dict(error=repr(e))
     digest = hashlib.sha256("\n".join(parts).encode()).hexdigest()[:16]
     out = [HEADER.format(digest=digest)] + parts + ["\nnamespace ExtTie"]
     for name, stmt, props, fn in theorems:
         out.append(f"theorem {name} : {stmt} := by {PROOFS[fn]} Ext.{name}")
     out.append("end ExtTie\nend Rngs\n")
     return "\n".join(out), report, theorems
+
+def nested_fn(fn, name, macros):
+    """a `fn name(..)` item declared inside the body of `fn`"""
+    stmts, tail = rsfront.parse_body(fn.body, macros)
+    for st in stmts:
+        if st[0] == "fn" and st[1].name == name:
+            return st[1]
+    raise Unsupported(f"nested fn {name} not found")
+
+def build_units_jitter(repo):
+    """rand_jitter: the pure mixing core — JitterRng::stir_pool, the LFSR fold `lfsr` (nested in lfsr_time), EcState::stuck"""
+    path = os.path.join(repo, "rand_jitter/src/lib.rs")
+    f = rsfront.load(path)
+    macros = dict(f.macros)
+    jm, em = {}, {}
+    for trait, ty, fns, consts in f.impls:
+        if ty == "JitterRng" and trait is None:
+            jm.update({k: v for k, v in fns.items() if v.body is not None})
+        if ty == "EcState" and trait is None:
+            em.update({k: v for k, v in fns.items() if v.body is not None})
+    units = []
+    # JitterRng: state = the model's Jitter.Rng (fields data, rounds, memPrevIndex, halfUsed); only `data` is touched here
+    ju = Unit("JitterRng", StructInfo("JitterRng", "Jitter.Rng", {"data": ("u64", "data")}),
+              {k: v for k, v in jm.items() if k in ("stir_pool",)}, {}, macros, {}, "Rngs.Ext.JitterRng")
+    ju.shape, ju.seed_len, ju.file = ("Jitter", 64), None, "rand_jitter/src/lib.rs"
+    units.append((ju, ["stir_pool"]))
+    # the nested fn lfsr(data, time) as a unit without state
+    if "lfsr_time" in jm:
+        try:
+            lf = nested_fn(jm["lfsr_time"], "lfsr", macros)
+            lu = Unit("JitterLfsr", StructInfo("JitterLfsr", "Unit", {}), {"lfsr": lf}, {}, macros, {}, "Rngs.Ext.JitterLfsr")
+            lu.shape, lu.seed_len, lu.file = ("fn", 64), None, "rand_jitter/src/lib.rs"
+            units.append((lu, ["lfsr"]))
+        except Unsupported:
+            pass
+    eu = Unit("EcState", StructInfo("EcState", "Jitter.Ec", {"prev_time": ("u64", "prevTime"), "last_delta": ("i32", "lastDelta"),
+                                                               "last_delta2": ("i32", "lastDelta2")}),
+              {k: v for k, v in em.items() if k == "stuck"}, {}, macros, {}, "Rngs.Ext.EcState")
+    eu.shape, eu.seed_len, eu.file = ("Ec", 32), None, "rand_jitter/src/lib.rs"
+    units.append((eu, ["stuck"]))
+    return units
+
+def jitter_theorems(u, done):
+    th = []
+    if u.name == "JitterRng" and "stir_pool" in done:
+        th.append(("JitterRng.stir_pool", "∀ st, Ext.JitterRng.stir_pool st = { st with data := Jitter.stir st.data }", ["C12", "C15"], "stir_pool"))
+    if u.name == "JitterLfsr" and "lfsr" in done:
+        th.append(("JitterLfsr.lfsr", "Ext.JitterLfsr.lfsr = Jitter.lfsr", ["C12", "C15"], "lfsr"))
+    if u.name == "EcState" and "stuck" in done:
+        th.append(("EcState.stuck", "Ext.EcState.stuck = Jitter.stuck", ["C12", "C13"], "stuck"))
+    return th
 
 def build_unit_xorshift(repo):
     path = os.path.join(repo, "rand_xorshift/src/lib.rs")
